@@ -57,7 +57,7 @@ func (a answer) String() string {
 	return "never(timeout 2m)"
 }
 
-var intervalLattice = []time.Duration{30 * time.Minute, time.Second, 0, -time.Second}
+var intervalLattice = []time.Duration{0, 30 * time.Minute, time.Second, -time.Second} // 0 = field absent
 
 func allAnswers() []answer {
 	var out []answer
@@ -571,8 +571,9 @@ func (g *aggregator) flush(rep *core.Report) {
 	sort.Strings(keys)
 	for _, k := range keys {
 		e := g.m[k]
-		rep.Violate(k, e.desc, e.rep)
-		rep.Extra["cases:"+k] = e.count
+		for i := int64(0); i < e.count; i++ {
+			rep.Violate(k, e.desc, e.rep) // the report counts calls
+		}
 	}
 }
 
